@@ -375,6 +375,25 @@ for _nm, _fn in (('PINV', _c10.pinv_), ('LSTSQ', _c10.lstsq_), ('Cholesky', _c10
                note='callee contract of the solver handed to GN / LM (same contract function as C10)')(_fn)
 
 
+@obligation('C07.input_forms', functions=[f'{OPT}:RobustModel.model_forward', f'{OPT}:RobustModel.forward'], max_paths=8)
+def input_forms(env):
+    """the residual the steps linearise is model(input) for every documented form of `input`: a tensor is THE argument, a tuple is the positional
+    arguments, a dict is the KEYWORD arguments - bound by name, whatever the order of its keys"""
+    optm = env.load(OPT); T = env.T
+    a, b = env.vec('a', 2), env.vec('b', 2)
+    class M2(T.nn.Module):
+        def __init__(self): super().__init__(); self.w = T.nn.Parameter(T.zeros(1))
+        def forward(self, src, dst): return src * 2 - dst * 3
+    class M1(T.nn.Module):
+        def __init__(self): super().__init__(); self.w = T.nn.Parameter(T.zeros(1))
+        def forward(self, x): return x * 5
+    rm = optm.RobustModel(M2()); want = a * 2 - b * 3
+    env.eq('a tuple is the positional arguments', rm.model_forward((a, b)), want)
+    env.eq('a dict in the order of the signature', rm.model_forward({'src': a, 'dst': b}), want)
+    env.eq('a dict is bound by NAME (keys in another order)', rm.model_forward({'dst': b, 'src': a}), want)
+    env.eq('a tensor is the single argument', optm.RobustModel(M1()).model_forward(a), a * 5)
+
+
 # "X <- Exp(delta) X for group parameters": update_parameter hands the increment to the parameter's own add_ (C07.GN.step.update checks the
 # hand-over on an SE3 parameter); that add_ IS the left retraction for every group type - also for an increment of the group's storage
 # width - is the retraction contract of c05_tangent.py, discharged in this check too for every group type.
